@@ -85,6 +85,17 @@ def run(tier: str) -> int:
     for name, srcs in multi:
         for vec in vecs[:2]:
             items.append(("monitor", dict(name=name, sources=srcs, tier=tier, shadow=True, opts=vec)))
+    # the same value through an assignment target and directly: both forms go through the same element
+    # selection code, only the registers differ (the jump table of lists with 6 or more entries takes two
+    # live temporaries)
+    twins = []
+    for nlist in (3, 5, 6, 7, 8):
+        tab = "[" + ", ".join(str(11 * (k + 1)) for k in range(nlist)) + "]"
+        twins.append((f"twin:list{nlist}:assign_vs_direct", HDR + f"i = d0.Setting\nx = {tab}[i]\ndb.Setting = x\n", HDR + f"i = d0.Setting\ndb.Setting = {tab}[i]\n"))
+        twins.append((f"twin:list{nlist}:in_function", HDR + f"def pick(i):\n    x = {tab}[i]\n    return x\n\ndb.Setting = pick(d0.Setting)\ndb.Mode = pick(1)\n",
+                      HDR + f"def pick(i):\n    return {tab}[i]\n\ndb.Setting = pick(d0.Setting)\ndb.Mode = pick(1)\n"))
+    for name, a_, b_ in twins:
+        items.append(("ic10_vs_ic10", dict(name=name, sources=a_, sources2=b_, opts={}, opts2={}, tier=tier)))
     press = []
     for k in (6, 10, 13, 15, 16, 17, 18, 20, 24):
         for inf in (False, True):
@@ -104,6 +115,11 @@ def run(tier: str) -> int:
     for (kind, spec), r in zip(items, results):
         if r["status"] == "harness_error":
             rep.harness_errors.append(f"{spec['name']}: {r.get('detail')}")
+        if kind == "ic10_vs_ic10":
+            if r["status"] == "divergence":
+                path = e1.save_replay(PROP, dict(property=PROP, kind="ic10_vs_ic10", name=spec["name"], sources=spec["sources"], merged=spec["sources2"], opts={}, result=r))
+                rep.violation(f"{spec['name']}: the value differs when it goes through an assignment target: {(r.get('divergences') or [{}])[0].get('detail')}", path)
+            continue
         if r["status"] == "load_error":
             # a register outside r0-r15 / a leftover virtual name makes the text unloadable
             if "register" in (r.get("detail") or "") or "__register" in (r.get("code") or ""):
